@@ -465,6 +465,7 @@ struct RenderTable {
 impl RenderTable {
     /// Create a new RenderTable with the given rows
     fn new(mut rows: Vec<RenderTableRow>) -> RenderTable {
+        verif_tick!(Step);
         // We later on want to allocate a vector sized by the column count,
         // but occasionally we see something like colspan="1000000000".  We
         // handle this by remapping the column ids to the smallest values
@@ -541,6 +542,7 @@ impl RenderTable {
     }
 
     fn calc_size_estimate(&self, _context: &HtmlContext) -> SizeEstimate {
+        verif_tick!(Step);
         if self.num_columns == 0 {
             let result = SizeEstimate {
                 size: 0,
@@ -1686,6 +1688,7 @@ fn process_dom_node<T: Write>(
     use RenderNodeInfo::*;
     use TreeMapResult::*;
 
+    verif_tick!(Step);
     Ok(match input.handle.clone().data {
         Document => pending(input, |_context, cs| Some(RenderNode::new(Container(cs)))),
         Comment { .. } => Nothing,
@@ -2130,6 +2133,7 @@ fn do_render_node<T: Write, D: TextDecorator>(
     tree: RenderNode,
     err_out: &mut T,
 ) -> render::Result<TreeMapResult<'static, TextRenderer<D>, RenderNode, Option<SubRenderer<D>>>> {
+    verif_tick!(Step);
     html_trace!("do_render_node({:?}", tree);
     use RenderNodeInfo::*;
     use TreeMapResult::*;
@@ -2406,6 +2410,7 @@ fn render_table_tree<T: Write, D: TextDecorator>(
     _err_out: &mut T,
 ) -> render::Result<TreeMapResult<'static, TextRenderer<D>, RenderNode, Option<SubRenderer<D>>>> {
     /* Now lay out the table. */
+    verif_tick!(Step);
     let num_columns = table.num_columns;
 
     /* Heuristic: scale the column widths according to how much content there is. */
@@ -2623,6 +2628,7 @@ pub mod config {
     impl<D: TextDecorator> Config<D> {
         /// Make the HtmlContext from self.
         pub(crate) fn make_context(&self) -> HtmlContext {
+            verif_tick!(Step);
             HtmlContext {
                 style_data: self.style.clone(),
                 #[cfg(feature = "css")]
@@ -2966,6 +2972,7 @@ impl RenderTree {
         width: usize,
         decorator: D,
     ) -> Result<RenderedText<D>> {
+        verif_tick!(Step);
         if width == 0 {
             return Err(Error::TooNarrow);
         }
